@@ -158,6 +158,38 @@ BoardsC2S(s, boards, decs, n) ==
   ELSE BoardC2S(s, boards[n], decs[n].calls, decs[n].cards)
        \o BoardsC2S(s, boards, decs, n + 1)
 
+\* ---- sessions that stopped early (deadlock): what the decisions taken so
+\* far oblige the server to have sent.  Boards before the last one with a
+\* decision are complete; on the last one the auction relays, then - if the
+\* auction has ended in a contract - the card relays so far and the lead
+\* prompt that is due next.
+PendingPrompt(s, b, c, cards) ==
+  LET p == PlayAfter(InitPlayOf(b, c), cards, Len(cards))
+      dummy == Partner(c.decl)
+      conn == IF p.active = dummy THEN c.decl ELSE p.active
+  IN IF Len(cards) < 52 /\ Len(p.trick) = 0 /\ conn = s
+     THEN <<IF p.active = dummy THEN "Dummy to lead" ELSE LeadMsg(s)>> ELSE <<>>
+PartialBoardS2C(s, n, b, calls, cards) ==
+  LET fa == FinalAuction(b, calls)
+      hdr == <<"Start of board", BoardMsg(n, b.dealer, b.vul),
+               CardsMsg(SeatName(s), DealOf(b.deal)[s])>>
+      auc == AuctionS2C(s, calls, 1)
+  IN IF ~A!Done(fa) \/ PassedOutC(A!Contract(fa)) THEN hdr \o auc
+     ELSE hdr \o auc \o PlayS2C(s, b, A!Contract(fa), cards)
+            \o PendingPrompt(s, b, A!Contract(fa), cards)
+LastStarted(decs) ==
+  LET St == {k \in 1..Len(decs) : decs[k].calls # <<>>}
+  IN IF St = {} THEN 0 ELSE CHOOSE k \in St : \A j \in St : j <= k
+RECURSIVE PartialBoards(_, _, _, _, _)
+PartialBoards(s, boards, decs, n, last) ==
+  IF n > last THEN <<>>
+  ELSE (IF n < last THEN BoardS2C(s, n, boards[n], decs[n].calls, decs[n].cards)
+        ELSE PartialBoardS2C(s, n, boards[n], decs[n].calls, decs[n].cards))
+       \o PartialBoards(s, boards, decs, n + 1, last)
+PartialServerStream(s, boards, decs, teams) ==
+  <<SeatedMsg(s, teams[Side(s) + 1]), TeamsMsg(teams[1], teams[2])>>
+    \o PartialBoards(s, boards, decs, 1, LastStarted(decs))
+
 \* a complete session of four conforming seats
 ServerStream(s, boards, decs, teams) ==
   <<SeatedMsg(s, teams[Side(s) + 1]), TeamsMsg(teams[1], teams[2])>>
